@@ -754,6 +754,9 @@ fn configs(tier: Tier) -> Vec<Config> {
             add("content", &[1], 4);
             add("underride", &[4], 4);
             add("room+sender", &[2, 3], 2);
+            // each kind has its own arm in insert/remove/set_*: insert, disable, re-insert needs depth 3
+            add("room", &[2], 3);
+            add("sender", &[3], 3);
         }
         Tier::Thorough => {
             add("override+content+underride", &[0, 1, 4], 5);
@@ -761,6 +764,8 @@ fn configs(tier: Tier) -> Vec<Config> {
             add("content", &[1], 7);
             add("underride", &[4], 7);
             add("room+sender", &[2, 3], 4);
+            add("room", &[2], 6);
+            add("sender", &[3], 6);
         }
     }
     v
